@@ -54,15 +54,14 @@ Section Generic.
   (* the wake-ups simulated up to T are exactly those whose time is <= T *)
   Lemma nwakes_spec : forall T k, (k < nwakes T)%nat <-> wake_time k <= T.
   Proof.
-    intros T k. unfold Services.nwakes. destruct (Qltb T t0) eqn:E; qcases.
+    intros T k. unfold Services.nwakes. destruct (Qltb T t0) eqn:Eb; qcases.
     - split; [lia|]. intros H. pose proof (wake_time_mono 0 k (Nat.le_0_l k)) as Hm. rewrite wake_time_0 in Hm. lra.
     - set (x := (T - t0) / period).
       assert (Hx : x * period == T - t0) by (unfold x; field; lra).
       assert (0 <= x) as Hx0.
       { unfold x. apply Qle_shift_div_l; [exact period_pos|]. lra. }
       assert (0 <= Qfloor x)%Z as Hf0.
-      { rewrite Zle_Qle. change (inject_Z 0) with 0.
-        destruct (Z_le_gt_dec 0 (Qfloor x)) as [L|G]; [rewrite <- Zle_Qle; exact L|].
+      { destruct (Z_le_gt_dec 0 (Qfloor x)) as [L|G]; [exact L|].
         exfalso. pose proof (Qlt_floor x) as Hl. assert (Qfloor x + 1 <= 0)%Z as Hz by lia.
         rewrite Zle_Qle in Hz. change (inject_Z 0) with 0 in Hz. lra. }
       unfold Services.wake_time. split; intros H.
@@ -89,8 +88,8 @@ Section Generic.
     let (a, b) := split_while f env in env = a ++ b /\ forallb f a = true.
   Proof.
     intros f env. induction env as [|x r IH]; cbn [split_while]; [auto|].
-    destruct (f x) eqn:E; [|auto]. destruct (split_while f r) as [a b]. destruct IH as [-> Hf].
-    split; [reflexivity|]. cbn [forallb]. rewrite E, Hf. reflexivity.
+    destruct (f x) eqn:Eb; [|auto]. destruct (split_while f r) as [a b]. destruct IH as [-> Hf].
+    split; [reflexivity|]. cbn [forallb]. rewrite Eb, Hf. reflexivity.
   Qed.
 
   Lemma apply_all_app : forall (l1 l2 : list (@eact A)) w,
@@ -271,14 +270,16 @@ Section Controllers.
     Proof.
       induction n as [|n IH]; intros k p env Henv; cbn [Services.wakes].
       - cbn [r_out r_rest r_world]. split; [reflexivity|]. split; [exact Henv|].
-        apply Qabs_le_iff. cbn. lra.
+        apply Qabs_le_iff. change (inject_Z (Z.of_nat 0)) with 0. split; lra.
       - pose proof (split_while_app (ready before (wake_time t0 (l_interval c) k)) env) as Hs.
         destruct (split_while (ready before (wake_time t0 (l_interval c) k)) env) as [rdy rest]. destruct Hs as [-> _].
         unfold env_all_ok in Henv. apply Forall_app in Henv. destruct Henv as [H1 H2].
         set (p0 := apply_all penv_apply rdy p).
         assert (0 <= l_interval c) as Hnn by lra.
         destruct (linear_step sem low high rate itv c p0 (l_interval c) Hinit Hnn) as (p1 & ef & Hreg & Hspec).
-        unfold ctrl_act at 1. cbn [ctrl_interval]. rewrite Hreg.
+        assert (ctrl_act sem (CLinear c) (k =? 0)%nat p0 = Ok (p1, Some ef)) as Hact.
+        { unfold ctrl_act. cbn [ctrl_interval]. rewrite Hreg. reflexivity. }
+        cbv zeta. rewrite Hact.
         destruct (IH (S k) p1 rest H2) as (Ho & Hr & Hb). cbn [r_out r_rest r_world].
         split; [exact Ho|]. split; [exact Hr|].
         destruct Hspec as (Hb1 & _). assert (p_demand p0 = p_demand p) as Hd by (apply apply_all_demand; exact H1).
@@ -317,9 +318,10 @@ Section Controllers.
       apply linear_init_ok in Hinit. destruct Hinit as (Hrate & _ & Hc). assert (l_rate c = rate) as -> by (rewrite Hc; reflexivity).
       assert (inject_Z (Z.of_nat (nb - na)) * l_interval c <= (b - a) + l_interval c) as Hm.
       { destruct (Nat.eq_dec nb na) as [E|E].
-        - rewrite E, Nat.sub_diag. cbn. lra.
+        - rewrite E, Nat.sub_diag. change (inject_Z (Z.of_nat 0)) with 0. lra.
         - assert (nb - 1 < nb)%nat as H1 by lia. apply (nwakes_spec t0 (l_interval c) Hpos b) in H1.
-          assert (~ (na < na)%nat) as H2 by lia. rewrite (nwakes_spec t0 (l_interval c) Hpos a) in H2.
+          assert (~ wake_time t0 (l_interval c) na <= a) as H2.
+          { intros HH. apply (nwakes_spec t0 (l_interval c) Hpos a) in HH. fold na in HH. lia. }
           assert (a < wake_time t0 (l_interval c) na) as H3 by (destruct (Qlt_le_dec a (wake_time t0 (l_interval c) na)); [assumption|contradiction]).
           replace (nb - 1)%nat with (na + (nb - 1 - na))%nat in H1 by lia.
           rewrite wake_time_plus in H1.
@@ -433,30 +435,30 @@ Section Buffer.
       + rewrite Hg. exact H2.
   Qed.
 
-  Lemma ready_mono : forall t t' x, t < t' -> ready before t x = true -> ready before t' x = true.
+  Lemma ready_mono : forall t t' (x : @eact benv), t < t' -> ready before t x = true -> ready before t' x = true.
   Proof.
     intros t t' x Hlt H. unfold ready in *. apply orb_true_iff in H. apply orb_true_iff. left. apply Qltb_lt.
     destruct H as [H|H]; [apply Qltb_lt in H; lra|]. apply andb_prop in H. destruct H as [H _]. apply Qeqb_eq in H. lra.
+  Qed.
+
+  Lemma filter_none : forall (f : @eact benv -> bool) l, (forall y, In y l -> f y = false) ->
+    filter f l = [] /\ filter (fun x => negb (f x)) l = l.
+  Proof.
+    intros f l. induction l as [|y l IH]; intros H; [split; reflexivity|]. cbn [filter].
+    rewrite (H y (or_introl eq_refl)). cbn [negb]. destruct IH as [-> ->]; [intros z Hz; apply H; right; exact Hz|].
+    split; reflexivity.
   Qed.
 
   Lemma split_while_filter : forall t env, ordered env ->
     split_while (ready before t) env = (filter (ready before t) env, filter (fun x => negb (ready before t x)) env).
   Proof.
     intros t env Ho. induction Ho as [|x l Hs IH Hall]; [reflexivity|]. cbn [split_while filter].
-    destruct (ready before t x) eqn:E; cbn [negb].
+    destruct (ready before t x) eqn:Ex; cbn [negb].
     - rewrite IH. reflexivity.
-    - f_equal.
-      + symmetry. rewrite Forall_forall in Hall. induction l as [|y l IHl]; [reflexivity|]. cbn [filter].
-        destruct (ready before t y) eqn:Ey.
-        * exfalso. rewrite (ready_closed t x y (Hall y (or_introl eq_refl)) Ey) in E. discriminate.
-        * apply IHl.
-          -- inversion Hs; assumption.
-          -- intros _. reflexivity.
-          -- intros z Hz. apply Hall. right. exact Hz.
-      + f_equal. rewrite Forall_forall in Hall. clear IH. induction l as [|y l IHl]; [reflexivity|]. cbn [filter].
-        destruct (ready before t y) eqn:Ey.
-        * exfalso. rewrite (ready_closed t x y (Hall y (or_introl eq_refl)) Ey) in E. discriminate.
-        * cbn [negb]. f_equal. apply IHl; [inversion Hs; assumption|]. intros z Hz. apply Hall. right. exact Hz.
+    - rewrite Forall_forall in Hall.
+      destruct (filter_none (ready before t) l) as [-> ->]; [|reflexivity].
+      intros y Hy. destruct (ready before t y) eqn:Ey; [|reflexivity].
+      rewrite (ready_closed t x y (Hall y Hy) Ey) in Ex. discriminate.
   Qed.
 
   Lemma filter_ordered : forall f env, ordered env -> ordered (filter f env).
@@ -485,4 +487,75 @@ Section Buffer.
         cbn [negb]. apply IHl. exact Hl.
       + destruct (ready before (wt (k + S n)) x); cbn [negb]; [apply IHl; exact Hl|]. f_equal. apply IHl. exact Hl.
   Qed.
+  Lemma ordered_partition : forall t env, ordered env ->
+    env = filter (ready before t) env ++ filter (fun x => negb (ready before t x)) env.
+  Proof.
+    intros t env Ho. pose proof (split_while_app (ready before t) env) as H.
+    rewrite (split_while_filter t env Ho) in H. apply H.
+  Qed.
+
+  (* at every window boundary k: right after it, the target's demand is the value most recently
+     written to the buffer among the writes that happened before the boundary (for writes exactly at
+     the boundary time: those that trio ran first), or the initial demand if there was none *)
+  Lemma buffer_boundary : forall k p env, ordered env ->
+    let r := bwakes (S k) 0 (buffer_init p) env in
+    r_out r = Running
+    /\ p_demand (b_target (r_world r)) == last_bwrite (filter (ready before (wt k)) env) (p_demand p)
+    /\ b_demand (r_world r) = last_bwrite (filter (ready before (wt k)) env) (p_demand p).
+  Proof.
+    intros k p env Ho r. subst r.
+    destruct (buffer_after_wakes k 0 (buffer_init p) env) as (Hout & Hf & pre & Hpre & Hlast).
+    pose proof (buffer_rest_is_filter k 0 (buffer_init p) env Ho) as Hrest. cbn [plus] in Hrest.
+    rewrite Hrest in Hpre. pose proof (ordered_partition (wt k) env Ho) as Hpart.
+    rewrite Hpart in Hpre at 1. apply app_inv_tail in Hpre. subst pre.
+    split; [exact Hout|]. cbn [buffer_init b_demand] in Hlast. rewrite Hf, Hlast. split; reflexivity.
+  Qed.
 End Buffer.
+
+(* ================================================================ FactoryPool *)
+Section Factory.
+  Variable q interval t0 : Q.
+  Variable before : nat -> bool.
+  Hypothesis Hpos : 0 < interval.
+  Hypothesis Hq : 0 < q.
+
+  Lemma factory_act_total : forall b w, True ->
+    exists w' rc, factory_act q b w = Ok (w', rc) /\ True
+                  /\ (match rc with Some _ => true | None => false end) = negb b.
+  Proof. intros [|] w _; cbn [factory_act]; eexists; eexists; split; try reflexivity; auto. Qed.
+
+  (* adjustments happen at t0 + (k+1)*interval <= T, once each; never at t0; never raises *)
+  Lemma factory_periodic : forall T w env,
+    let r := factory_timeline q interval t0 before T w env in
+    r_out r = Running
+    /\ map fst (r_log r) = map (wake_time t0 interval) (seq 1 (nwakes t0 interval T - 1)).
+  Proof.
+    intros T w env. unfold factory_timeline.
+    pose proof (timeline_periodic fenv_apply (factory_act q) t0 interval before (fun _ => True) (fun _ => True) negb
+                  (fun _ _ _ _ => I) factory_act_total T w env I) as H.
+    cbv zeta in H. rewrite filter_nonzero_seq in H. apply H.
+    unfold env_all_ok. apply Forall_forall. auto.
+  Qed.
+
+  (* one adjustment spawns the least number of children that covers the missing demand *)
+  Lemma spawn_count_covers : forall missing, 0 < missing ->
+    let n := inject_Z (Z.of_nat (spawn_count q missing)) in
+    missing <= n * q /\ (n - 1) * q < missing.
+  Proof.
+    intros missing Hm n. subst n. unfold spawn_count. apply Qltb_lt in Hm. rewrite Hm. apply Qltb_lt in Hm.
+    set (x := missing / q). assert (x * q == missing) as Hx by (unfold x; field; lra).
+    assert (0 < x) as Hx0 by (unfold x; apply Qlt_shift_div_l; lra).
+    assert (0 <= Qceiling x)%Z as Hc.
+    { destruct (Z_le_gt_dec 0 (Qceiling x)) as [L|G]; [exact L|]. exfalso.
+      pose proof (Qle_ceiling x) as Hl. assert (Qceiling x <= 0)%Z as Hz by lia. rewrite Zle_Qle in Hz.
+      change (inject_Z 0) with 0 in Hz. lra. }
+    rewrite Z2Nat.id by exact Hc. pose proof (Qle_ceiling x) as H1. pose proof (Qceiling_lt x) as H2.
+    assert (inject_Z (Qceiling x - 1) == inject_Z (Qceiling x) - 1) as He by (unfold Z.sub; rewrite inject_Z_plus; reflexivity).
+    rewrite He in H2. split; nra.
+  Qed.
+
+  Lemma spawn_count_zero : forall missing, missing <= 0 -> spawn_count q missing = O.
+  Proof.
+    intros missing Hm. unfold spawn_count. destruct (Qltb 0 missing) eqn:Eb; [apply Qltb_lt in Eb; lra|reflexivity].
+  Qed.
+End Factory.
